@@ -293,3 +293,225 @@ def peval(n, env):
             return a if a == b else None
         return peval(ch[1] if c else ch[2], env)
     return None
+
+
+# ---------------------------------------------------------------------------
+# switch flattening and a small structured interpreter (E5 decision tables)
+# ---------------------------------------------------------------------------
+def flatten_switch(sw):
+    """Switch node -> list of (labels, stmt); labels: list of int values or 'default';
+    stmt is the statement that follows the label(s) in source order."""
+    body = sw["ch"][1]
+    items = []
+    stmts = body["ch"] if body is not None and body["k"] == "Compound" else [body]
+    for s in stmts:
+        if s is None:
+            continue
+        labels = []
+        cur = s
+        while cur is not None and cur["k"] in ("Case", "Default"):
+            if cur["k"] == "Case":
+                labels.append(cur.get("val"))
+                cur = cur["ch"][1] if len(cur["ch"]) > 1 else None
+            else:
+                labels.append("default")
+                cur = cur["ch"][0] if cur["ch"] else None
+        items.append((labels, cur))
+    return items
+
+
+def switch_labels(sw):
+    out = []
+    for labels, _ in flatten_switch(sw):
+        out.extend(labels)
+    return out
+
+
+class Path:
+    """One explored path of the structured interpreter."""
+    def __init__(self):
+        self.effects = []      # expression/return nodes in execution order
+        self.decisions = []    # (cond node, value)
+        self.returned = None   # Return node or None
+        self.broke = False
+
+    def clone(self):
+        p = Path()
+        p.effects = list(self.effects)
+        p.decisions = list(self.decisions)
+        p.returned = self.returned
+        p.broke = self.broke
+        return p
+
+
+def sinterp(stmts, evalc, switch_val=None, max_paths=4096):
+    """Execute a list of statement nodes on every path.
+    evalc(cond_node, path) -> True/False/None (None: explore both);
+    switch_val(cond_node, path) -> int or None (None: explore every arm).
+    Returns the list of Paths (each ends by return, break out of the list, or fall off)."""
+    def run(seq, paths):
+        for s in seq:
+            live = [p for p in paths if p.returned is None and not p.broke]
+            done = [p for p in paths if not (p.returned is None and not p.broke)]
+            if not live:
+                return paths
+            paths = done + step(s, live)
+            if len(paths) > max_paths:
+                raise RuntimeError("path explosion in sinterp")
+        return paths
+
+    def step(s, live):
+        if s is None:
+            return live
+        k = s["k"]
+        if k == "Compound":
+            return run(s["ch"], live)
+        if k == "If":
+            out = []
+            for p in live:
+                v = evalc(s["ch"][0], p)
+                for val in ([v] if v is not None else [True, False]):
+                    q = p.clone() if v is None else p
+                    q.decisions.append((s["ch"][0], val))
+                    q.effects.append(s["ch"][0])
+                    br = s["ch"][1] if val else (s["ch"][2] if len(s["ch"]) > 2 else None)
+                    out.extend(step(br, [q]) if br is not None else [q])
+            return out
+        if k == "Switch":
+            out = []
+            items = flatten_switch(s)
+            for p in live:
+                v = switch_val(s["ch"][0], p) if switch_val else None
+                if v is None:
+                    starts = [i for i, (labs, _) in enumerate(items) if labs]
+                    if not any("default" in labs for labs, _ in items):
+                        starts.append(len(items))
+                else:
+                    starts = [i for i, (labs, _) in enumerate(items) if v in labs]
+                    if not starts:
+                        starts = [i for i, (labs, _) in enumerate(items) if "default" in labs]
+                    if not starts:
+                        starts = [len(items)]
+                for st in starts[:1] if v is not None else starts:
+                    q = p.clone() if (v is None and len(starts) > 1) else p
+                    labs = items[st][0] if st < len(items) else ["<no arm>"]
+                    q.decisions.append((s["ch"][0], tuple(labs)))
+                    seq = [stmt for _, stmt in items[st:]]
+                    res = run(seq, [q])
+                    for r in res:
+                        r.broke = False    # break leaves the switch only
+                    out.extend(res)
+            return out
+        if k == "Return":
+            for p in live:
+                p.effects.append(s)
+                p.returned = s
+            return live
+        if k == "Break":
+            for p in live:
+                p.broke = True
+            return live
+        if k in ("While", "For", "Do", "RangeFor"):
+            for p in live:
+                p.effects.append(s)     # loops are opaque effects
+            return live
+        for p in live:
+            p.effects.append(s)
+        return live
+
+    return run(stmts, [Path()])
+
+
+# ---------------------------------------------------------------------------
+# E8 parameter threading
+# ---------------------------------------------------------------------------
+def call_args(call):
+    """Actual argument nodes of a call (without the implicit object)."""
+    ch = call.get("ch") or []
+    if call.get("member") and not call.get("opcall"):
+        return ch[1:]
+    return ch
+
+
+def threading(prog, res, rule, fam_re, member_sources, entry_keys, reach_required=True, why="", exempt=None):
+    """E8: in every function that has a parameter of the family (or is a method of a class with a
+    corresponding member) and calls a function that accepts the family, the argument must be derived
+    from the caller's own parameter/member - not a literal and not a defaulted omission."""
+    import re as _re
+    fam = _re.compile(fam_re)
+    accept = {}      # callee key -> index
+    for r in prog.records.values():
+        for m in r["methods"]:
+            for i, p in enumerate(m["params"]):
+                if fam.search(p["n"] or ""):
+                    accept.setdefault(m["key"], i)
+    for f in prog.all_functions():
+        for i, p in enumerate(f.params):
+            if fam.search(p["n"] or ""):
+                accept.setdefault(f.key, i)
+    reach = prog.reachable_from(entry_keys) if reach_required else None
+    nsites = 0
+    counters = {}
+    for f in prog.all_functions():
+        if f.component in ("test", "selftest_skip"):
+            continue
+        own = None
+        if f.key in accept and accept[f.key] < len(f.params):
+            own = f.params[accept[f.key]]["d"]
+        cls_src = [m for c, m in member_sources.items() if f.cls == c]
+        if own is None and not cls_src:
+            continue
+        if reach is not None and f.key not in reach:
+            continue
+        if exempt and f.name in exempt:
+            if own is None:
+                res.add(rule, "%s|%s|%s|exempt" % (rule, f.relfile(), f.name), f.where(), True,
+                        "exempt: " + exempt[f.name], assume=exempt[f.name])
+                continue
+        # locals derived from the own parameter / member (one level)
+        derived = set()
+
+        def mentions_source(n):
+            for x in walk(n):
+                if x["k"] == "Ref" and (x.get("d") == own or x.get("d") in derived):
+                    return True
+                if x["k"] == "Member" and any(x["n"] in ms for ms in cls_src):
+                    return True
+                if x["k"] == "Call" and any((x.get("fn") or "").split("::")[-1] in ms for ms in cls_src):
+                    return True
+            return False
+        for n in f.walk():
+            if n["k"] == "Var" and n.get("ch") and n["ch"] and n["ch"][0] is not None and mentions_source(n["ch"][0]):
+                derived.add(n["d"])
+            if n["k"] == "Assign":
+                lhs = strip(n["ch"][0])
+                if lhs["k"] == "Ref" and lhs.get("dk") == "local" and mentions_source(n["ch"][1]):
+                    derived.add(lhs["d"])
+        for call in f.walk():
+            if call["k"] not in ("Call", "Construct"):
+                continue
+            fk = call.get("fk")
+            if fk not in accept:
+                continue
+            idx = accept[fk]
+            args = call_args(call)
+            nsites += 1
+            base = "%s|%s|%s|->%s" % (rule, f.relfile(), f.name, (call.get("fn") or "?"))
+            c = counters.get(base, 0)
+            counters[base] = c + 1
+            key = base if c == 0 else "%s#%d" % (base, c)
+            if idx >= len(args):
+                res.add(rule, key, f.where(call), False,
+                        "call of %s omits the %s argument (callee default is used)" % (call.get("fn"), why))
+                continue
+            a = args[idx]
+            if a["k"] == "DefaultArg":
+                res.add(rule, key, f.where(call), False,
+                        "%s calls %s without the %s argument: the callee's default (%s) replaces the caller's value" %
+                        (f.name, call.get("fn"), why, expr_str(a)))
+                continue
+            ok = mentions_source(a)
+            res.add(rule, key, f.where(call), ok,
+                    "%s argument is `%s`" % (why, expr_str(a)) if ok else
+                    "%s argument of %s is `%s`, not derived from the caller's own %s" % (why, call.get("fn"), expr_str(a), why))
+    return nsites
